@@ -144,6 +144,11 @@ Fixpoint clash (a b : value) {struct a} : bool :=
   | _, _ => false
   end.
 
+Definition any_clash (l : list value) : bool := existsb (fun a => existsb (fun b => clash a b) l) l.
+
+(* the known-deviation class of a law case (a list of values that get compared with each other) *)
+Definition Known_C08 (l : list value) : bool := existsb has_nan l || any_clash l || existsb has_fd l.
+
 (* a tuple with a member of type Value (TryFrom<Structure> does not undo the boxing Value::new did) *)
 Fixpoint tuple_variant (x : sv) : bool :=
   match x with
